@@ -28,6 +28,9 @@ import (
 	"errors"
 	"fmt"
 	"io"
+	"os"
+	"path/filepath"
+	"runtime/debug"
 	"strings"
 	"testing"
 	"unicode/utf8"
@@ -94,6 +97,67 @@ type c22src struct {
 	sizes   []int // chunk size alphabet, 0 = as much as fits
 	calls   int   // Read calls with a non-empty p during the current operation
 	lastOff int   // offset before the last chunk handed out
+
+	// Intermediate-state caching inside one operation (exploration only): probe returns the
+	// complete configuration (object fields + stream offsets) at this underlying Read call. If
+	// the same configuration was already reached from the same operation start through a
+	// different fragmentation prefix, every continuation has been enumerated there and this
+	// execution is cut (c22prune). Fragmentations are thus enumerated up to equal intermediate
+	// configurations instead of as raw compositions.
+	dstLen  func() int // bytes the current WriteTo destination has received (op-local state)
+	probe   func() c22ik
+	visited map[c22ik][]int
+	pruned  int64
+}
+
+type c22ik [10]int
+
+type c22prune struct{}
+
+func (s *c22src) checkpoint() {
+	if s.probe == nil {
+		return
+	}
+	k := s.probe()
+	if first, ok := s.visited[k]; ok {
+		same := len(first) == len(s.ch.trace)
+		for i := 0; same && i < len(first); i++ {
+			same = first[i] == s.ch.trace[i]
+		}
+		if !same {
+			s.pruned++
+			panic(c22prune{})
+		}
+		return
+	}
+	s.visited[k] = append([]int(nil), s.ch.trace...)
+}
+
+func c22b2i(b bool) int {
+	if b {
+		return 1
+	}
+	return 0
+}
+
+// c22guard is vk.Guard that lets the exploration cut (c22prune) through.
+func c22guard(f func()) (pruned, panicked bool, val string) {
+	defer func() {
+		if e := recover(); e != nil {
+			if _, ok := e.(c22prune); ok {
+				pruned = true
+				return
+			}
+			panicked = true
+			lines := strings.Split(string(debug.Stack()), "\n")
+			if len(lines) > 28 {
+				lines = lines[:28]
+			}
+			val = fmt.Sprintf("%v\n%s", e, strings.Join(lines, "\n"))
+		}
+	}()
+	f()
+	return
 }
 
 func (s *c22src) Read(p []byte) (int, error) {
@@ -105,6 +169,7 @@ func (s *c22src) Read(p []byte) (int, error) {
 	if rem == 0 {
 		return 0, s.endErr
 	}
+	s.checkpoint()
 	max := len(p)
 	if rem < max {
 		max = rem
@@ -224,6 +289,7 @@ type c22res struct {
 	outcome string
 	vios    []c22vio
 	fatal   bool // model and implementation cannot be re-synchronised: do not expand further
+	pruned  bool // execution cut by intermediate-state caching: nothing judged
 	touched bool // the underlying stream was called during the op
 }
 
@@ -259,7 +325,14 @@ func c22readerStep(b *Reader, src *c22src, m *c22model, op c22rop) (res c22res) 
 			res.fatal = true
 		}
 	}
-	pan, pv := vk.Guard(func() {
+	var dst *c22dst
+	src.dstLen = func() int {
+		if dst == nil {
+			return 0
+		}
+		return len(dst.got)
+	}
+	pruned, pan, pv := c22guard(func() {
 		switch op.kind {
 		case c22oRead:
 			p := make([]byte, op.n)
@@ -389,6 +462,12 @@ func c22readerStep(b *Reader, src *c22src, m *c22model, op c22rop) (res c22res) 
 					kind = "delim-buffered"
 				}
 			}
+			if ek == "full" && len(rest) == c22B && !isP && bytes.Equal(line, rest) {
+				// The stream ends exactly at the buffer edge: if the reader has already seen the
+				// end (error delivered with the last chunk) this is the final fragment, not a
+				// prefix, and nothing is put back. Both answers are bufio behaviour.
+				el, ep, want, kind = rest, false, len(rest), "end-exact-buffer"
+			}
 			if !bytes.Equal(line, el) || isP != ep {
 				want = 0
 				bad(true, "reader:data:ReadLine:"+ek+":wrong-line", "ReadLine returned (%q,%v,%v), expected (%q,%v)", line, isP, err, el, ep)
@@ -417,7 +496,7 @@ func c22readerStep(b *Reader, src *c22src, m *c22model, op c22rop) (res c22res) 
 				kind = "toolarge"
 			}
 		case c22oWriteTo:
-			dst := &c22dst{limit: op.n}
+			dst = &c22dst{limit: op.n}
 			n, err := b.WriteTo(dst)
 			if n != int64(len(dst.got)) {
 				bad(true, "reader:data:WriteTo:n-mismatch", "WriteTo returned n=%d, destination received %d bytes", n, len(dst.got))
@@ -440,6 +519,10 @@ func c22readerStep(b *Reader, src *c22src, m *c22model, op c22rop) (res c22res) 
 			}
 		}
 	})
+	if pruned {
+		res.pruned = true
+		return
+	}
 	res.touched = src.calls > 0
 	res.outcome = op.name + ":" + kind
 	if op.kind == c22oRead || op.kind == c22oPeek || op.kind == c22oWriteTo {
@@ -572,16 +655,17 @@ func c22path(states []c22rstate, i int, last string) string {
 }
 
 // c22rk is the canonical reader state: every Reader field that influences future behaviour
-// (buffer contents are a function of off and w while the stream invariant holds), the source
+// (including the buffer bytes below w: bytes before r are re-exposed by Unread*), the source
 // offset and the model's memory.
 type c22rk struct {
+	buf                                  string
 	off, r, w                            int
 	err                                  bool
 	lastByte, lastRuneSize, mLastRune, d int
 }
 
 func c22rkey(b *Reader, src *c22src, m *c22model) c22rk {
-	return c22rk{src.off, b.r, b.w, b.err != nil, b.lastByte, b.lastRuneSize, m.lastRune, b.TotalRead - m.pos}
+	return c22rk{string(b.buf[:c22clamp(b.w, len(b.buf))]), src.off, b.r, b.w, b.err != nil, b.lastByte, b.lastRuneSize, m.lastRune, b.TotalRead - m.pos}
 }
 
 func c22newReader(cfg c22rcfg, sizes []int, ch *c22ch) (*Reader, *c22src, io.Reader) {
@@ -603,6 +687,10 @@ func c22exploreReader(r *vk.Run, cfg c22rcfg, ops []c22rop, sizes []int, maxDept
 	var ntrans, nontriv int64
 	outc := map[string]int64{}
 	capped := false
+	src.visited = map[c22ik][]int{}
+	src.probe = func() c22ik {
+		return c22ik{b.r, b.w, src.off, c22b2i(b.err != nil), b.TotalRead, b.lastByte, b.lastRuneSize, src.dstLen()}
+	}
 	for si := 0; si < len(states); si++ {
 		if states[si].depth >= maxDepth {
 			capped = true
@@ -619,11 +707,18 @@ func c22exploreReader(r *vk.Run, cfg c22rcfg, ops []c22rop, sizes []int, maxDept
 				src.off = st.off
 				m := st.m
 				ch.reset(prefix)
+				if len(prefix) == 0 {
+					for k := range src.visited {
+						delete(src.visited, k)
+					}
+				}
 				res := c22readerStep(b, src, &m, op)
-				ntrans++
-				outc[res.outcome]++
-				if res.touched {
-					nontriv++
+				if !res.pruned {
+					ntrans++
+					outc[res.outcome]++
+					if res.touched {
+						nontriv++
+					}
 				}
 				for _, v := range res.vios {
 					if sigSeen[v.sig] {
@@ -633,7 +728,7 @@ func c22exploreReader(r *vk.Run, cfg c22rcfg, ops []c22rop, sizes []int, maxDept
 					sigSeen[v.sig] = true
 					r.Violation(v.sig, "R|"+cfg.name+"|"+c22path(states, si, op.name+":"+c22ints(ch.trace)), v.detail())
 				}
-				if !res.fatal {
+				if !res.fatal && !res.pruned {
 					k := c22rkey(b, src, &m)
 					if _, dup := seen[k]; !dup {
 						seen[k] = struct{}{}
@@ -665,6 +760,7 @@ func c22exploreReader(r *vk.Run, cfg c22rcfg, ops []c22rop, sizes []int, maxDept
 		r.OutcomeN("R:"+k, v)
 	}
 	r.Set("max_reader_depth_"+cfg.name, maxd)
+	r.Add("sum_fragmentation_prefixes_cut_by_state_caching", src.pruned)
 	if !capped {
 		r.Add("sum_reader_configs_closed", 1)
 	}
@@ -868,7 +964,7 @@ func c22writerStep(b *Writer, sink *c22sink, rsrc *c22src, m *c22wmodel, op c22w
 	if op.kind == c22wReadFrom {
 		opn = "ReadFrom"
 	}
-	pan, pv := vk.Guard(func() {
+	pruned, pan, pv := c22guard(func() {
 		switch op.kind {
 		case c22wWrite:
 			payload = c22pat(len(m.acc), op.n)
@@ -907,6 +1003,10 @@ func c22writerStep(b *Writer, sink *c22sink, rsrc *c22src, m *c22wmodel, op c22w
 			retErr = b.Flush()
 		}
 	})
+	if pruned {
+		res.pruned = true
+		return
+	}
 	if pan {
 		res.vios = append(res.vios, c22vio{"writer:panic:" + opn + ":" + vk.PanicSite(pv), func() string { return "panic in " + op.name + ": " + pv }})
 		res.fatal = true
@@ -1017,6 +1117,10 @@ func c22exploreWriter(r *vk.Run, cfg c22wcfg, ops []c22wop, sizes []int, more bo
 	sigSeen := map[string]bool{}
 	var ntrans, nontriv int64
 	outc := map[string]int64{}
+	rsrc.visited = map[c22ik][]int{}
+	rsrc.probe = func() c22ik {
+		return c22ik{b.n, c22b2i(b.err != nil), b.TotalWrite, rsrc.off, len(sink.got), c22b2i(sink.broken), sink.calls, c22b2i(sink.failed)}
+	}
 	for si := 0; si < len(states); si++ {
 		if len(states[si].acc) >= limit {
 			continue
@@ -1037,11 +1141,18 @@ func c22exploreWriter(r *vk.Run, cfg c22wcfg, ops []c22wop, sizes []int, more bo
 				sink.broken = st.broken
 				m := c22wmodel{acc: append([]byte(nil), st.acc...)}
 				ch.reset(prefix)
+				if len(prefix) == 0 {
+					for k := range rsrc.visited {
+						delete(rsrc.visited, k)
+					}
+				}
 				res := c22writerStep(b, sink, rsrc, &m, op)
-				ntrans++
-				outc[res.outcome]++
-				if res.touched {
-					nontriv++
+				if !res.pruned {
+					ntrans++
+					outc[res.outcome]++
+					if res.touched {
+						nontriv++
+					}
 				}
 				for _, v := range res.vios {
 					if sigSeen[v.sig] {
@@ -1051,7 +1162,7 @@ func c22exploreWriter(r *vk.Run, cfg c22wcfg, ops []c22wop, sizes []int, more bo
 					sigSeen[v.sig] = true
 					r.Violation(v.sig, "W|"+cfg.name+"|"+c22wpath(states, si, op.name+":"+c22ints(ch.trace)), v.detail())
 				}
-				if !res.fatal {
+				if !res.fatal && !res.pruned {
 					k := c22wkey(b, sink, &m)
 					if _, dup := seen[k]; !dup {
 						seen[k] = struct{}{}
@@ -1082,6 +1193,7 @@ func c22exploreWriter(r *vk.Run, cfg c22wcfg, ops []c22wop, sizes []int, more bo
 		r.OutcomeN("W:"+k, v)
 	}
 	r.Set("max_writer_depth_"+cfg.name, maxd)
+	r.Add("sum_fragmentation_prefixes_cut_by_state_caching", rsrc.pruned)
 	if len(states) > 40 {
 		i := len(states) / 2
 		r.Sample(map[string]interface{}{"writer_cfg": cfg.name, "accepted": len(states[i].acc), "buffered": states[i].wr.n, "script": c22wpath(states, i, "")})
@@ -1123,6 +1235,14 @@ func c22replayWriter(r *vk.Run, id string, cfg c22wcfg, ops []c22wop, sizes []in
 func TestVerifC22(t *testing.T) {
 	r := vk.Start(t, "C22")
 	defer r.Finish()
+	// The same signature is found by several shard processes and vk names the replay file by
+	// signature only; give every shard its own replay directory so concurrent writers cannot
+	// interleave into one file.
+	if i, n := r.Shard(); n > 1 {
+		if d := os.Getenv("VERIF_REPLAY_DIR"); d != "" {
+			os.Setenv("VERIF_REPLAY_DIR", filepath.Join(d, fmt.Sprintf("C22.shard%02d", i)))
+		}
+	}
 
 	// Streams: A = general mix (LF line, CRLF line, 3-byte rune, invalid UTF-8 byte, no final
 	// line end); B = 15 bytes + CRLF straddling the 16-byte buffer; C = CR at the buffer edge not
@@ -1130,16 +1250,20 @@ func TestVerifC22(t *testing.T) {
 	streams := [][2]string{
 		{"A", "ab\nc\r\n€d\n\xffg"},
 		{"B", "0123456789abcde\r\nxy"},
+		{"D", "0123456789abcdef"},
 	}
 	if r.Thorough() {
 		streams = append(streams,
 			[2]string{"C", "0123456789abcde\rX\né"},
-			[2]string{"D", "0123456789abcdef"},
-			[2]string{"E", "\n\r\n\xe2\x82x0123456789abcd\n\r"})
+			[2]string{"E", "\n\r\n\xe2\x82x0123456789abcd\n\r"},
+			// F: a request head crossing the 16-byte buffer several times, then a body
+			[2]string{"F", "GET / HTTP/1.1\r\nHost: a\r\n\r\nb€\n"},
+			// G: a header line longer than two buffers (full, full, rest), CR at a buffer edge
+			[2]string{"G", "X-Long: 0123456\r789abcdefghijklmnopq\r\nA: b\r\n\r\n"})
 	}
-	sizes := []int{1, 3, 0}
+	sizes := []int{1, 2, 3, 4, 0} // underlying Read hands over 1..4 bytes or all that fits
 	if r.Thorough() {
-		sizes = []int{1, 2, 3, 4, 0}
+		sizes = []int{1, 2, 3, 4, 7, 0}
 	}
 	var rcfgs []c22rcfg
 	for _, s := range streams {
@@ -1159,7 +1283,7 @@ func TestVerifC22(t *testing.T) {
 	}
 	rops := c22readerOps(r.Thorough())
 	maxDepth := r.Pick(1000, 1000) // closure: the stream is finite and states are deduplicated
-	wlimit := r.Pick(40, 72)
+	wlimit := r.Pick(40, 96)
 
 	if r.Replaying() {
 		id := r.ReplayCase()
